@@ -81,6 +81,9 @@ type marker struct {
 	Kind   string `json:"kind"` // answer | alias | cut
 	Target string `json:"target,omitempty"`
 	Forged bool   `json:"forged,omitempty"` // payload of a harness-forged entry
+	// Internal: produced for an internal sub-query (alias chase, prefetch
+	// refresh) rather than for a client request.
+	Internal bool `json:"internal,omitempty"`
 }
 
 type failureRec struct {
@@ -401,7 +404,13 @@ func (u *universe) stub(_ context.Context, req *stack.StubRequest) *stack.StubRe
 		}
 	}
 	m := new(dns.Msg)
-	m.Answer, _ = u.answerFor(q, req.CD, scope, false)
+	var id uint32
+	m.Answer, id = u.answerFor(q, req.CD, scope, false)
+	if req.Internal {
+		u.mu.Lock()
+		u.markers[id].Internal = true
+		u.mu.Unlock()
+	}
 	attachOPT(m, req)
 	rep.Msg = m
 	return rep
